@@ -165,4 +165,214 @@ theorem epoch_window (T F P e0 : Nat) (ops : List SOp) (m sender g : Nat) :
     · simp [ha, hne]
     · simp [ha, hne, ng]
 
+/-! ## the mdk client: what is stored -/
+
+inductive COp where
+  | send (n mid tok : Nat)
+  | commit
+  | deliver (w : Msg)
+  deriving DecidableEq, Repr
+
+def runCl : Cl → List COp → Cl
+  | c, [] => c
+  | c, .send n mid tok :: l => runCl (send c n mid tok).1 l
+  | c, .commit :: l => runCl (applyCommit c) l
+  | c, .deliver w :: l => runCl (deliver c w).1 l
+
+/-- every client a history of sends, commits and deliveries can lead to retains exactly the last
+    `min P (epoch - joined)` epochs (the hypothesis `PastOK` of the theorems below) -/
+theorem reachable_pastOK (ops : List COp) (c : Cl) (h : PastOK c.cfg.P c.joined c.st) :
+    PastOK (runCl c ops).cfg.P (runCl c ops).joined (runCl c ops).st := by
+  induction ops generalizing c with
+  | nil => exact h
+  | cons o l ih =>
+    cases o with
+    | send n mid tok => exact ih _ h
+    | commit => exact ih _ (pastOK_advance h)
+    | deliver w =>
+      apply ih
+      obtain ⟨h1, h2, _, h4⟩ := deliver_frame c w
+      rw [h1, h2]
+      rcases h4 with h4 | h4
+      · rw [h4]; exact h
+      · rw [h4]; exact pastOK_mlsRecv h _ _ _ _ _
+
+theorem init_pastOK (id : Nat) (cfg : Cfg) (e0 : Nat) : PastOK (initCl id cfg e0).cfg.P (initCl id cfg e0).joined (initCl id cfg e0).st :=
+  pastOK_init cfg.P e0
+
+/-- **inside_windows_all_stored**: one sender's burst of one epoch, offered for the first time to a receiver that has not
+    yet seen a message of that sender in that epoch, in ANY order that stays inside the out-of-order and forward-distance
+    windows (`inWin`, decided on the delivery list), while the receiver is at most `max_past_epochs` — and at most
+    mdk's fixed `DEFAULT_EPOCH_LOOKBACK` — epochs past the burst's epoch: every delivery returns the message, every
+    message ends in exactly the row its sender gave it (id, author, content token; state Processed), and a second
+    offer of any of them is `Unprocessable` and changes neither rows nor ratchets -/
+theorem inside_windows_all_stored (c : Cl) (m s : Nat) (ws : List Msg)
+    (ok : PastOK c.cfg.P c.joined c.st)
+    (hs : s ≠ c.id) (hj : c.joined ≤ m) (hme : m ≤ c.st.epoch)
+    (hP : c.st.epoch - m ≤ c.cfg.P) (hL : c.st.epoch - m ≤ c.cfg.L)
+    (first : ∀ t, treeFor c.st m = some t → tlookup s t = none)
+    (same : ∀ w ∈ ws, w.sender = s ∧ w.epoch = m)
+    (gens : (ws.map (·.gen)).Nodup) (wrappers : (ws.map (·.n)).Nodup) (mids : (ws.map (·.mid)).Nodup)
+    (fresh : ∀ w ∈ ws, tlookup w.n c.recs = none)
+    (hw : inWin c.cfg.T c.cfg.F 0 (ws.map (·.gen)) = true) :
+    (deliverAll c ws).2 = ws.map (fun w => Res.app w.mid) ∧
+    (∀ w ∈ ws, findRow w.mid (deliverAll c ws).1.rows = some ⟨w.mid, s, 1, c.st.epoch, w.tok⟩) ∧
+    (∀ k, k ∉ ws.map (·.mid) → findRow k (deliverAll c ws).1.rows = findRow k c.rows) ∧
+    (∀ w ∈ ws, (deliver (deliverAll c ws).1 w).2 = .unprocessable ∧
+               (deliver (deliverAll c ws).1 w).1.rows = (deliverAll c ws).1.rows ∧
+               (deliver (deliverAll c ws).1 w).1.st = (deliverAll c ws).1.st) := by
+  obtain ⟨r, ch⟩ := chain_of_window ok hs hj hme hP hL
+  have hr : r = Ratchet.new := by
+    obtain ⟨t, ht, e⟩ := ch.tree
+    rw [first t ht] at e
+    exact e.symm
+  subst hr
+  obtain ⟨a1, ⟨r', chr, invr⟩, a3, _, a5, a6, a7, _⟩ :=
+    deliverAll_inside ws ch (inv_new c.cfg.T) same gens (by simp) wrappers mids
+      (by intro w hw rc hrc; rw [fresh w hw] at hrc; cases hrc) hw
+  refine ⟨a1, a5, a6, ?_⟩
+  intro w hwm
+  obtain ⟨hws, hwe⟩ := same w hwm
+  have e0 : deliver (deliverAll c ws).1 w = step1 (deliverAll c ws).1 w :=
+    deliver_eq_step1 (by intro rc hrc; rw [a7 w hwm] at hrc; cases hrc; simp)
+  have hne : (recv (deliverAll c ws).1.cfg.T (deliverAll c ws).1.cfg.F r' w.gen).2 ≠ .accepted := by
+    rw [a3]
+    intro hacc
+    exact (recv_accepted_inv invr hacc).1 (by simp; exact ⟨w, hwm, rfl⟩)
+  rw [e0, step1_refuse chr w hws hwe hne]
+  exact ⟨rfl, rfl, rfl⟩
+
+/-- the hypotheses are satisfiable: receiver 1 (T = 2, F = 3, P = 1) is one epoch past a burst of five that arrives in
+    the order 1 0 3 2 4 -/
+def rx : Cl := applyCommit (initCl 1 ⟨2, 3, 1, 5⟩ 1)
+def burst : List Msg := [⟨11, 0, 1, 1, 101, 7⟩, ⟨10, 0, 1, 0, 100, 6⟩, ⟨13, 0, 1, 3, 103, 9⟩, ⟨12, 0, 1, 2, 102, 8⟩, ⟨14, 0, 1, 4, 104, 10⟩]
+example : (deliverAll rx burst).2 = [.app 101, .app 100, .app 103, .app 102, .app 104] ∧
+    (deliverAll rx burst).1.rows.length = 5 ∧ inWin 2 3 0 (burst.map (·.gen)) = true := by decide
+
+/-- the full statement: the CONFIGURED windows alone (no mention of the fixed outer look-back) … -/
+def inside_windows_all_stored_full : Prop :=
+  ∀ (c : Cl) (m s : Nat) (ws : List Msg), PastOK c.cfg.P c.joined c.st → s ≠ c.id → c.joined ≤ m → m ≤ c.st.epoch →
+    c.st.epoch - m ≤ c.cfg.P →
+    (∀ t, treeFor c.st m = some t → tlookup s t = none) → (∀ w ∈ ws, w.sender = s ∧ w.epoch = m) →
+    (ws.map (·.gen)).Nodup → (ws.map (·.n)).Nodup → (ws.map (·.mid)).Nodup → (∀ w ∈ ws, tlookup w.n c.recs = none) →
+    inWin c.cfg.T c.cfg.F 0 (ws.map (·.gen)) = true →
+    (deliverAll c ws).2 = ws.map (fun w => Res.app w.mid)
+
+/-- receiver with `max_past_epochs = 8` (look-back 5 as in mdk-core), six commits after it joined in epoch 1 -/
+def rx8 : Cl := applyCommit (applyCommit (applyCommit (applyCommit (applyCommit (applyCommit (initCl 1 ⟨5, 1000, 8, 5⟩ 1))))))
+
+/-- … is FALSE of mdk: a message six epochs old is inside `max_past_epochs = 8` (OpenMLS still holds its secrets), but
+    the outer layer only tries the exporter secrets of 5 past epochs — `Err`, a Failed record, blocked for ever
+    (corpus/C02/msgwin_past_epochs_capped.trace replays this on the implementation) -/
+theorem witness_past_epochs_capped :
+    rx8.st.epoch = 7 ∧ (treeFor rx8.st 1).isSome = true ∧
+    (deliver rx8 ⟨1, 0, 1, 1, 1, 2⟩).2 = .errMessage ∧
+    (deliver (deliver rx8 ⟨1, 0, 1, 1, 1, 2⟩).1 ⟨1, 0, 1, 1, 1, 2⟩).2 = .unprocessable ∧
+    (deliver rx8 ⟨3, 0, 2, 0, 2, 3⟩).2 = .app 2 := by decide
+
+theorem inside_windows_all_stored_full_false : ¬ inside_windows_all_stored_full := by
+  intro h
+  have ok : PastOK rx8.cfg.P rx8.joined rx8.st := reachable_pastOK [.commit, .commit, .commit, .commit, .commit, .commit] _ (init_pastOK 1 ⟨5, 1000, 8, 5⟩ 1)
+  have := h rx8 1 0 [⟨1, 0, 1, 1, 1, 2⟩] ok (by decide) (by decide) (by decide) (by decide) (by decide) (by decide)
+    (by decide) (by decide) (by decide) (by decide) (by decide)
+  revert this; decide
+
+/-- **outside the windows, at the client**: an offer OpenMLS refuses (too far ahead, too old, reused) is `Unprocessable`,
+    leaves rows and ratchets as they are, and leaves a Failed record — which makes every later offer of the same wrapper
+    `Unprocessable` without a look (step-0 dedup), whatever the windows would say by then -/
+theorem refused_without_effect_and_for_ever (c : Cl) (m s : Nat) (r : Ratchet) (ch : Chain c m s r) (w : Msg)
+    (hs : w.sender = s) (hm : w.epoch = m) (notBlocked : ∀ rc, tlookup w.n c.recs = some rc → rc.state ≠ 3)
+    (href : (recv c.cfg.T c.cfg.F r w.gen).2 ≠ .accepted) :
+    (deliver c w).2 = .unprocessable ∧ (deliver c w).1.rows = c.rows ∧ (deliver c w).1.st = c.st ∧
+    deliver (deliver c w).1 w = ((deliver c w).1, .unprocessable) := by
+  rw [deliver_eq_step1 notBlocked, step1_refuse ch w hs hm href]
+  refine ⟨rfl, rfl, rfl, ?_⟩
+  unfold deliver
+  have : tlookup w.n (recordFailure c w.n (some c.st.epoch)).recs =
+      some ⟨3, some c.st.epoch, (tlookup w.n c.recs).bind (·.mid)⟩ := by
+    simp only [recordFailure]; exact tlookup_tinsert_self _ _ _
+  rw [this]; simp
+
+/-- observed consequence (outside the property's hypothesis): T = 1, F = 2; generation 3 arrives first (too far ahead),
+    then 0 1 2; now generation 3 is the very next one — and its wrapper is refused for ever -/
+def rx12 : Cl := initCl 1 ⟨1, 2, 1, 5⟩ 1
+theorem witness_refused_once_lost_for_ever :
+    (deliverAll rx12 [⟨3, 0, 1, 3, 3, 4⟩, ⟨0, 0, 1, 0, 0, 1⟩, ⟨1, 0, 1, 1, 1, 2⟩, ⟨2, 0, 1, 2, 2, 3⟩, ⟨3, 0, 1, 3, 3, 4⟩]).2 =
+      [.unprocessable, .app 0, .app 1, .app 2, .unprocessable] := by decide
+
+/-! ## the sender's own copy -/
+
+def commits : Nat → Cl → Cl
+  | 0, c => c
+  | k + 1, c => commits k (applyCommit c)
+
+theorem commits_frame (k : Nat) (c : Cl) :
+    (commits k c).rows = c.rows ∧ (commits k c).recs = c.recs ∧ (commits k c).id = c.id ∧ (commits k c).cfg = c.cfg ∧
+    (commits k c).joined = c.joined ∧ (commits k c).st.epoch = c.st.epoch + k ∧
+    (PastOK c.cfg.P c.joined c.st → PastOK c.cfg.P c.joined (commits k c).st) := by
+  induction k generalizing c with
+  | zero => simp [commits]
+  | succ k ih =>
+    obtain ⟨a, b, d, e, f, g, h⟩ := ih (applyCommit c)
+    simp only [commits]
+    refine ⟨a, b, d, e, f, ?_, fun ok => h (pastOK_advance ok)⟩
+    rw [g]; simp only [applyCommit, advance]; omega
+
+/-- **own_copy_confirmed**: the sender's own message, returning from the relay after `k` further commits with `k` inside
+    `max_past_epochs` (and the fixed look-back), is returned and its cached row goes Created → Processed; a second echo is
+    `Unprocessable` and changes nothing -/
+theorem own_copy_confirmed (c : Cl) (ok : PastOK c.cfg.P c.joined c.st) (n mid tok k : Nat)
+    (hk : k ≤ c.cfg.P) (hk' : k ≤ c.cfg.L) :
+    let w := (send c n mid tok).2
+    let c2 := commits k (send c n mid tok).1
+    (deliver c2 w).2 = .app mid ∧
+    findRow mid (deliver c2 w).1.rows = some ⟨mid, c.id, 1, c.st.epoch, tok⟩ ∧
+    (deliver (deliver c2 w).1 w).2 = .unprocessable ∧ (deliver (deliver c2 w).1 w).1 = (deliver c2 w).1 := by
+  intro w c2
+  obtain ⟨f1, f2, f3, f4, f5, f6, f7⟩ := commits_frame k (send c n mid tok).1
+  have hrec : tlookup w.n c2.recs = some ⟨0, some c.st.epoch, some mid⟩ := by
+    show tlookup n c2.recs = _
+    rw [f2]; simp only [send]; exact tlookup_tinsert_self _ _ _
+  have hrow : findRow mid c2.rows = some ⟨mid, c.id, 0, c.st.epoch, tok⟩ := by
+    rw [f1]; simp only [send]; exact findRow_upsert_self ⟨mid, c.id, 0, c.st.epoch, tok⟩ c.rows
+  have hep : c2.st.epoch = c.st.epoch + k := by rw [f6]; rfl
+  have ok2 : PastOK c.cfg.P c.joined c2.st := f7 ok
+  have hj : c.joined ≤ c.st.epoch := ok.1
+  have houter : outerOpens c2 w.epoch = true := by
+    unfold outerOpens
+    have e1 : c2.joined = c.joined := by rw [f5]; rfl
+    have e2 : c2.cfg = c.cfg := by rw [f4]; rfl
+    have e3 : w.epoch = c.st.epoch := rfl
+    rw [e1, e2, e3, hep]; simp; omega
+  have htree : ∃ t, treeFor c2.st w.epoch = some t := by
+    cases ht : treeFor c2.st w.epoch with
+    | none =>
+      have := (treeFor_none_iff ok2 w.epoch).mp ht
+      have e3 : w.epoch = c.st.epoch := rfl
+      omega
+    | some t => exact ⟨t, rfl⟩
+  obtain ⟨t, ht⟩ := htree
+  have hid : w.sender = c2.id := by rw [f3]; rfl
+  have e : deliver c2 w = ({ c2 with rows := upsertRow ⟨mid, c.id, 1, c.st.epoch, tok⟩ c2.rows, recs := tinsert w.n ⟨1, some c.st.epoch, some mid⟩ c2.recs }, .app mid) := by
+    unfold deliver
+    rw [hrec]
+    simp only [Nat.zero_ne_add_one, if_false]
+    unfold step1
+    rw [houter, ht]
+    simp only [Bool.not_true, Bool.false_eq_true, if_false, hid, if_true]
+    unfold ownMessage
+    rw [hrec]
+    simp only [if_true, hrow]
+  rw [e]
+  refine ⟨rfl, findRow_upsert_self ⟨mid, c.id, 1, c.st.epoch, tok⟩ c2.rows, ?_⟩
+  have hrec2 : tlookup w.n (tinsert w.n (⟨1, some c.st.epoch, some mid⟩ : Rec) c2.recs) = some ⟨1, some c.st.epoch, some mid⟩ :=
+    tlookup_tinsert_self _ _ _
+  unfold deliver
+  simp only [hrec2]
+  unfold step1
+  simp only [outerOpens] at houter ⊢
+  simp only [houter, ht, Bool.not_true, Bool.false_eq_true, if_false, hid, if_true]
+  unfold ownMessage
+  simp [hrec2]
+
 end MdkVerif.Props.C02Win
